@@ -491,11 +491,14 @@ class _IRAFStarFinderCatalog:
 
     @lazyproperty
     def cutout_xorigin(self):
-        return np.transpose(self.xypos)[0] - self.kernel.xradius
+        # (float: unsigned integer positions would wrap around)
+        return (np.transpose(self.xypos)[0].astype(float)
+                - self.kernel.xradius)
 
     @lazyproperty
     def cutout_yorigin(self):
-        return np.transpose(self.xypos)[1] - self.kernel.yradius
+        return (np.transpose(self.xypos)[1].astype(float)
+                - self.kernel.yradius)
 
     @lazyproperty
     def xcentroid(self):
